@@ -154,6 +154,12 @@ def snapshot():
         snap["rules.checks"] = repr([r.__name__ for r in R.rules.checks])
         reg = P.registry()
         snap["registry.dependencies"] = repr(sorted((k, [r.__name__ for r in v]) for k, v in reg.dependencies.items() if v))
+        for k, v in sorted(vars(reg).items()):
+            if k != "dependencies":
+                snap[f"registry.{k}"] = repr(v)[:400]
+        for k, v in sorted(vars(type(reg)).items()):
+            if not k.startswith("__") and not callable(v):
+                snap[f"Registry.{k}"] = repr(v)[:400]
     except Exception as e:
         snap["rules"] = f"<{type(e).__name__}>"
     return snap
@@ -290,8 +296,8 @@ def run_chunk(chunk, ctx):
             col.gap(str(res)[:100])
         elif status == "timeout":
             if items is not None and "C05" in props:
-                from symx.native import site_of
-                col.violation("hang::" + site_of(res.__traceback__), "the analysis does not terminate",
+                from symx.native import hang_site
+                col.violation("hang::" + hang_site(res.__traceback__), "the analysis does not terminate",
                               dict(name=name, text=SymStr(items).concretize(ex.model()), props=sorted(props)))
         elif status == "ok" and not cur.get("viol") and col.want_witness():
             col.add_witness(dict(name=name, text=SymStr(items).concretize(ex.model()), props=sorted(props)), conc(res))
